@@ -59,8 +59,37 @@ class Sys:
         return out
 
     def term(self, nlc):
-        s = None
+        """z3 term of a normalised lc.  Boolean wires whose coefficients are (odd * 2^j) for a common odd part are emitted
+        in Horner form b0 + 2*(b1 + 2*(...)): the same value, but it decides how far the solver gets on bit sums
+        (probe in DESIGN 3: flat form unknown at 16 bits, Horner 0.02 s)"""
+        groups, rest = {}, []
         for k, c in nlc.items():
+            if k is not None and k in self.bools and c != 0:
+                j = (c & -c).bit_length() - 1 if c > 0 else ((-c) & c).bit_length() - 1
+                j = (abs(c) & -abs(c)).bit_length() - 1
+                odd = c >> j
+                if j in groups.setdefault(odd, {}):
+                    rest.append((k, c))          # two wires with the same coefficient: only one can sit in the chain
+                else:
+                    groups[odd][j] = k
+            else:
+                rest.append((k, c))
+        s = None
+        for odd, js in groups.items():
+            if len(js) < 4:
+                rest.extend((k, odd << j) for j, k in js.items())
+                continue
+            top, low = max(js), min(js)
+            acc = None
+            for j in range(top, low - 1, -1):
+                b = self.w[js[j]] if j in js else None
+                if acc is None:
+                    acc = b
+                else:
+                    acc = (b + 2 * acc) if b is not None else 2 * acc
+            t = acc if (odd << low) == 1 else (odd << low) * acc
+            s = t if s is None else s + t
+        for k, c in rest:
             w = z3.IntVal(1) if k is None else self.w[k]
             t = w if c == 1 else c * w
             s = t if s is None else s + t
@@ -272,6 +301,47 @@ class Sys:
                 continue
             out.append(self.encode_constraint(A, B, C))
         return out
+
+    def bit_groups(self, min_len=6):
+        """groups of free boolean wires that occur in one linear combination with coefficients s*2^j, j = 0..k-1"""
+        out = []
+        seen = set()
+        for A, B, C in self.cons:
+            for part in (A, B, C):
+                try:
+                    nl = self.norm(part)
+                except ValueError:
+                    continue
+                for sign in (1, -1):
+                    js = {}
+                    for k, c in nl.items():
+                        if k is not None and k in self.bools and k not in self.fixed and sign * c > 0 and (sign * c) & (sign * c - 1) == 0:
+                            js.setdefault((sign * c).bit_length() - 1, k)
+                    kmax = 0
+                    while kmax in js:
+                        kmax += 1
+                    if kmax >= min_len:
+                        key = tuple(js[j] for j in range(kmax))
+                        if key not in seen:
+                            seen.add(key)
+                            out.append([self.w[x] for x in key])
+        return out
+
+    def uniqueness_lemmas(self, path, min_len=6):
+        """valid arithmetic facts, stated because the solvers do not discover them at 16 bits: two 0/1 sequences with the
+        same weighted sum sum 2^j u_j are equal.  Instantiated for every (free bit group, honest skolem decomposition) pair
+        and for pairs of free groups."""
+        groups = self.bit_groups(min_len)
+        lem = []
+        honest = [bs for (_tid, _W), (bs, hi, t) in path.bitcache.items()]
+        for g in groups:
+            k = len(g)
+            su = sum((1 << j) * g[j] for j in range(k))
+            for bs in honest:
+                if len(bs) >= k:
+                    sv = sum((1 << j) * bs[j] for j in range(k))
+                    lem.append(z3.Implies(su == sv, z3.And([g[j] == bs[j] for j in range(k)])))
+        return lem
 
     def lc_term(self, lc):
         return self.term(self.norm(lc))
